@@ -175,8 +175,42 @@ Program genC02(Rand& R, int tier)
 // ---------------------------------------------------------------------------------------
 // C06 / C07 / C12: lifetime, compute tables, policies -- histories with heavy churn
 // ---------------------------------------------------------------------------------------
+// counter-width scenario: two nodes whose incoming counts need more than 16 bits at the same time,
+// one of them drops back, then the handle / counter arrays are resized by node-hungry functions and
+// shrunk again by a mass release
+static Program genC06widths(Rand& R, int tier)
+{
+    Gen G(R, tier, "C06");
+    G.P.domains.push_back({4, 4, 4, R.chance(50) ? 4 : 3});
+    const char range = R.chance(50) ? 'I' : 'B';
+    int f = G.addForest(G.forestSpec(0, false, range, 'M', "FQ"[R.below(2)], true));
+    G.genCollection(0, f, 6, false);
+    G.genCollection(1, f, 6, false);
+    const bool both = R.chance(75);
+    const long big1 = R.chance(70) ? 70000 : 300, big2 = both ? (R.chance(70) ? 66000 : 40000) : 200;
+    G.emit({"hold", "0", Gen::num(big1), "0"});
+    G.emit({"hold", "1", Gen::num(big2), "1"});
+    if (R.chance(70)) G.emit({"unhold", "0"});
+    // node-hungry functions: many distinct values => many nodes (several hundred in total)
+    int hungry = R.range(4, 10);
+    for (int i = 0; i < hungry; i++) {
+        int n = R.range(60, 160);
+        for (int j = 0; j < n; j++) G.emitMinterm(f, 0, range == 'B' ? "1" : Gen::num(1 + (j * 7 + i) % 97));
+        G.emit({"coll", Gen::num(2 + i), Gen::num(f), "max", "0"});
+        G.setLive(2 + i, f);
+    }
+    if (R.chance(60)) for (int i = 0; i < hungry; i++) if (R.chance(80)) { G.emit({"release", Gen::num(2 + i)}); G.setDead(2 + i); }
+    if (R.chance(50)) G.emit({"clearct", Gen::num(f)});
+    G.emit({"unhold", "1"});
+    if (R.chance(50)) G.emit({"unhold", "0"});
+    G.emitOp(range == 'B' ? std::vector<std::string>{"UNION", "INTERSECTION"} : std::vector<std::string>{"PLUS", "MAXIMUM"}, {f});
+    G.emit({"drain"});
+    return G.P;
+}
+
 Program genC06(Rand& R, int tier)
 {
+    if (R.chance(tier ? 10 : 6)) return genC06widths(R, tier);
     Gen G(R, tier, "C06");
     mixedHistory(G, tier, 10, tier ? 120 : 45, 40);
     // drive one node's incoming count across the 8/16-bit counter widths and back
